@@ -44,9 +44,9 @@ for t, c in FT.items():
         U.add('fov_eq_persp%s_%s' % (v, t), [(c, 5)], [(c, 16), (c, 16)],
               'stm(o, glm::perspectiveFov%s(%s)); stm(o2, glm::perspective%s(a[0], a[1] / a[2], a[3], a[4]));' % (v, args(5), v))
     for v in INFV:
-        U.add('infinitePerspective%s_%s' % (v, t), [(c, 3)], [(c, 16), (c, 1)], 'stm(o, glm::infinitePerspective%s(%s)); o2[0] = std::tan(a[0] / %s(2));' % (v, args(3), c))
-    U.add('tweaked4_' + t, [(c, 4)], [(c, 16), (c, 1)], 'stm(o, glm::tweakedInfinitePerspective(%s)); o2[0] = std::tan(a[0] / %s(2));' % (args(4), c))
-    U.add('tweaked3_' + t, [(c, 3)], [(c, 16), (c, 1)], 'stm(o, glm::tweakedInfinitePerspective(%s)); o2[0] = std::tan(a[0] / %s(2));' % (args(3), c))
+        U.add('infinitePerspective%s_%s' % (v, t), [(c, 3), (c, 2)], [(c, 16), (c, 1)], 'stm(o, glm::infinitePerspective%s(%s)); o2[0] = std::tan(a[0] / %s(2));' % (v, args(3), c))
+    U.add('tweaked4_' + t, [(c, 4), (c, 2)], [(c, 16), (c, 1)], 'stm(o, glm::tweakedInfinitePerspective(%s)); o2[0] = std::tan(a[0] / %s(2));' % (args(4), c))
+    U.add('tweaked3_' + t, [(c, 3), (c, 2)], [(c, 16), (c, 1)], 'stm(o, glm::tweakedInfinitePerspective(%s)); o2[0] = std::tan(a[0] / %s(2));' % (args(3), c))
     PJ = 'ldv<3,%s>(a), ldm<4,4,%s>(b), ldm<4,4,%s>(c), ldv<4,%s>(d)' % (c, c, c, c)
     for v in ('', 'ZO', 'NO'):
         U.add('project%s_%s' % (v, t), [(c, 3), (c, 16), (c, 16), (c, 4)], [(c, 3)], 'stv(o, glm::project%s(%s));' % (v, PJ))
@@ -57,7 +57,7 @@ for t, c in FT.items():
               'stv(o, glm::project%s(glm::unProject%s(%s), ldm<4,4,%s>(b), ldm<4,4,%s>(c), ldv<4,%s>(d)));' % (v, v, PJ, c, c, c))
     for v in ('ZO', 'NO'):
         U.add('project%s_ivp_%s' % (v, t), [(c, 3), (c, 16), (c, 16), ('int', 4)], [(c, 3)], 'stv(o, glm::project%s(ldv<3,%s>(a), ldm<4,4,%s>(b), ldm<4,4,%s>(c), ldv<4,int>(d)));' % (v, c, c, c))
-    U.add('pickMatrix_' + t, [(c, 2), (c, 2), (c, 4)], [(c, 16)], 'stm(o, glm::pickMatrix(ldv<2,%s>(a), ldv<2,%s>(b), ldv<4,%s>(c)));' % (c, c, c))
+    U.add('pickMatrix_' + t, [(c, 2), (c, 2), (c, 4), (c, 1)], [(c, 16)], 'stm(o, glm::pickMatrix(ldv<2,%s>(a), ldv<2,%s>(b), ldv<4,%s>(c)));' % (c, c, c))
 
 CONFIGS = {'RH_NO': [], 'LH_NO': ['GLM_FORCE_LEFT_HANDED'], 'RH_ZO': ['GLM_FORCE_DEPTH_ZERO_TO_ONE'], 'LH_ZO': ['GLM_FORCE_LEFT_HANDED', 'GLM_FORCE_DEPTH_ZERO_TO_ONE']}
 UC = {k: (U if not d else U.clone('c08_' + k, defines=d)) for k, d in CONFIGS.items()}
@@ -108,10 +108,17 @@ def pre_box(i):
     l, r, b, t, n, f = i[0]; return [l < r, b < t, n > 0, n < f]
 def pre_persp(i):
     fovy, asp, n, f = i[0]; return [asp > 0, n > 0, n < f]
+def pre_persp_ne(c):
+    # aspect == epsilon trips glm's assertion (known finding, reported bit-exactly by the assert_* jobs); a native replay would abort the checker
+    return lambda i: pre_persp(i) + [i[0][1] != eps_of(c)]
 def pre_fov(i):
     fov, w, h, n, f = i[0]; return [fov > 0, w > 0, h > 0, n > 0, n < f]
-REGIONS = {}
-def eps_of(c): return z3.RealVal(2) ** (-23 if c == 'float' else -52)
+def _aspect_eps(res, k):
+    a = res.ins[0][1]; c = res.fn.ins[0][0]
+    if z3.is_bv(a): return a == z3.BitVecVal(float_to_bits(2.0 ** (-23 if c == 'float' else -52), a.size()), a.size())
+    return a == eps_of(c)
+REGIONS = {'aspect_eps': _aspect_eps}
+def eps_of(c): return z3.Q(1, 2 ** (23 if c == 'float' else 52))
 KF_ASSERT = 'KF-C08-perspective-assert-aspect-epsilon'
 
 # ----------------------------------------------------------------------------- jobs: view volume -> clip volume (real)
@@ -119,7 +126,7 @@ def job_ortho(t, vs):
     c = FT[t]
     def run(S):
         def spec2(i, o):
-            l, r, b, tp = i[0]; zs = z3.Real('zsym'); g = []
+            l, r, b, tp = i[0]; g = []
             for (sxn, X) in (('l', l), ('r', r)):
                 for (syn, Y) in (('b', b), ('t', tp)):
                     cx, cy, cz, cw = mulv(o[0], [X, Y, z3.RealVal(1), 1]); lab = sxn + syn      # 2-D ortho == ortho with near=-1, far=1 (z -> -z)
@@ -157,7 +164,7 @@ def job_persp(t, vs):
             def spec(i, o, hand=hand, depth=depth):
                 fovy, asp, n, f = i[0]; T = rv(o[1][0]); top = n * T; right = top * asp
                 return corner_goals(o[0], box_corners(-right, right, -top, top, n, f, depth, True), hand)
-            S.check_fn(U, 'perspective%s_%s' % (v, t), spec, pre_persp, mode='real', extra_hyps=trig_pos, known=[KF_ASSERT], bounds='aspect>0, 0<near<far, tan(fovy/2)>0')
+            S.check_fn(U, 'perspective%s_%s' % (v, t), spec, pre_persp_ne(c), mode='real', extra_hyps=trig_pos, bounds='aspect>0, aspect != epsilon (see ' + KF_ASSERT + '), 0<near<far, tan(fovy/2)>0')
     return run
 def job_fov(t, vs):
     def run(S):
@@ -178,27 +185,34 @@ def job_equiv(t, vs):
     return run
 def inf_goals(M, i, T, hand, k, lim, slope):
     """near corners -> (+-1,+-1,near-z); a point at symbolic depth d >= near on the frustum boundary -> x,y=+-1, ndc_z = lim - slope*near/d"""
-    fovy, asp, n = i[0][0], i[0][1], i[0][2]; d = z3.Real('depth'); d2 = z3.Real('depth2')
+    fovy, asp, n = i[0][0], i[0][1], i[0][2]; d, d2 = i[1]      # b[0], b[1]: two symbolic depths (not passed to glm)
     g = corner_goals(M, [('near-%s%s' % ('lr'[a], 'bt'[b]), (2 * a - 1) * n * T * asp, (2 * b - 1) * n * T, n, 2 * a - 1, 2 * b - 1, lim - slope) for a in (0, 1) for b in (0, 1)], hand)
     z = -d if hand == 'RH' else d
     cx, cy, cz, cw = mulv(M, [d * T * asp, -d * T, z, 1])
-    g += [('depth-d.w', REq(cw, d)), ('depth-d.x', REq(cx, cw)), ('depth-d.y', REq(cy, -cw)), ('depth-d.z-form', REq(cz, lim * d - slope * n))]
+    g += [('depth-d.w', REq(cw, d)), ('depth-d.x', REq(cx, cw)), ('depth-d.y', REq(cy, -cw)), ('depth-d.z-form', REq(cz, lim * d - slope * n)),
+          ('depth-d.below-limit', RGoal('lt', cz, lim * cw))]
+    # strictly increasing in depth: ndc_z(d) < ndc_z(d2) for d < d2 (cross-multiplied, both w > 0)
+    z2 = -d2 if hand == 'RH' else d2
+    ex2, ey2, ez2, ew2 = mulv(M, [z3.RealVal(0), z3.RealVal(0), z2, 1])
+    ex1, ey1, ez1, ew1 = mulv(M, [z3.RealVal(0), z3.RealVal(0), z, 1])
+    g += [('depth-monotone', z3.Implies(z3.And(d >= n, d2 > d), ez1 * ew2 < ez2 * ew1))]
     return g
 def job_inf(t, vs):
     c = FT[t]
     def run(S):
         for v in vs:
+            if v == 'tweaked': continue
             hand, depth = selected(v).split('_'); k = 2 if depth == 'NO' else 1
             def spec(i, o, hand=hand, k=k):
                 return inf_goals(o[0], i, rv(o[1][0]), hand, k, z3.RealVal(1), z3.RealVal(k))
-            S.check_fn(U, 'infinitePerspective%s_%s' % (v, t), spec, lambda i: [i[0][1] > 0, i[0][2] > 0], mode='real', extra_hyps=trig_pos, bounds='aspect>0, near>0, tan(fovy/2)>0; depth d symbolic')
+            S.check_fn(U, 'infinitePerspective%s_%s' % (v, t), spec, lambda i: [i[0][1] > 0, i[0][2] > 0, i[1][0] >= i[0][2]], mode='real', extra_hyps=trig_pos, bounds='aspect>0, near>0, tan(fovy/2)>0; depth d >= near symbolic')
         if 'tweaked' in vs:
             def spec4(i, o):
                 ep = i[0][3]; return inf_goals(o[0], i, rv(o[1][0]), 'RH', 2, 1 - ep, 2 - ep)
-            S.check_fn(U, 'tweaked4_' + t, spec4, lambda i: [i[0][1] > 0, i[0][2] > 0, i[0][3] > 0, i[0][3] < 1], mode='real', extra_hyps=trig_pos, bounds='aspect>0, near>0, 0<ep<1; ndc_z(d) = (1-ep) - (2-ep)*near/d')
+            S.check_fn(U, 'tweaked4_' + t, spec4, lambda i: [i[0][1] > 0, i[0][2] > 0, i[0][3] > 0, i[0][3] < 1, i[1][0] >= i[0][2]], mode='real', extra_hyps=trig_pos, bounds='aspect>0, near>0, 0<ep<1; ndc_z(d) = (1-ep) - (2-ep)*near/d')
             def spec3(i, o):
                 ep = eps_of(c); return inf_goals(o[0], i, rv(o[1][0]), 'RH', 2, 1 - ep, 2 - ep)
-            S.check_fn(U, 'tweaked3_' + t, spec3, lambda i: [i[0][1] > 0, i[0][2] > 0], mode='real', extra_hyps=trig_pos, bounds='ep = machine epsilon of T')
+            S.check_fn(U, 'tweaked3_' + t, spec3, lambda i: [i[0][1] > 0, i[0][2] > 0, i[1][0] >= i[0][2]], mode='real', extra_hyps=trig_pos, bounds='ep = machine epsilon of T')
     return run
 def job_assert(t):
     """bit-precise: the only way the builders' assertions can fire for aspect > 0 (known finding: aspect == epsilon)"""
@@ -327,7 +341,7 @@ def job_roundtrip2(t):
 def job_pick(t):
     def run(S):
         def spec(i, o):
-            (cx, cy), (dx, dy), vp = i; zs = z3.Real('zsym'); g = []
+            (cx, cy), (dx, dy), vp, (zs,) = i; g = []      # d[0]: symbolic z (not passed to glm)
             for a in (-1, 1):
                 for b in (-1, 1):
                     # window point on the pick rectangle -> NDC of the viewport -> must land on the NDC square corner
